@@ -240,3 +240,34 @@ opt_update = function(
   ],
   modifies=['self.step.value'],
   bindings=OB, props=('C17',))
+
+# ---- _update_opt_state: the new optimizer state is stored RAW - no Variable hook (on_set_value) runs on it --------------
+import z3 as _z3
+ArrLike = opaque('OptStateValue', is_str=False)
+ArrLike.attrs['value'] = (ArrLike, None)
+is_vs = UFn('is_variable_state', [ArrLike], BOOL, 'isinstance(update, VariableState)')
+ArrLike.isinstance_hook = lambda ex, v, names: ex.call_value(is_vs, [v], {}).t if names == {'VariableState'} else (_ for _ in ()).throw(OutsideSubset('isinstance ' + repr(names)))
+# `value` stands for the hook-mediated property of nnx.Variable (the setter runs on_set_value), `raw_value` for the stored array
+OptLeaf = ObjSort('OptStateLeaf', dict(raw_value=ArrLike, value=ArrLike))
+is_optvar = UFn('is_opt_variable', [OptLeaf], BOOL, 'isinstance(x, OptVariable)')
+is_optarr = UFn('is_opt_array', [OptLeaf], BOOL, 'isinstance(x, OptArray)')
+
+
+def _leaf_isinstance(ex, v, names):
+  if names == {'OptVariable'}:
+    return ex.call_value(is_optvar, [v], {}).t
+  if names == {'OptArray'}:
+    return ex.call_value(is_optarr, [v], {}).t
+  raise OutsideSubset('isinstance ' + repr(names))
+
+
+OptLeaf.isinstance_hook = _leaf_isinstance
+update_leaf = function(
+  O + '::_update_opt_state.<locals>.optimizer_update_variables', params=[('x', OptLeaf), ('update', ArrLike)],
+  raises={'TypeError': '(is_opt_variable(x) and not is_variable_state(update)) or (not is_opt_variable(x) and is_opt_array(x) and is_variable_state(update)) '
+                       'or (not is_opt_variable(x) and not is_opt_array(x))'},
+  ensures=['implies(is_opt_variable(x), x.raw_value == update.value)',
+           'implies(not is_opt_variable(x), x.raw_value == update)'],
+  modifies=['x.raw_value'],      # frame: nothing goes through the hook-mediated `value` setter
+  bindings={'OptVariable': TypeTag('OptVariable'), 'OptArray': TypeTag('OptArray'), 'VariableState': TypeTag('VariableState')},
+  props=('C17',))
